@@ -59,6 +59,12 @@ def run(tier, replay_path=None):
         for _ in range(nvar):
             s0 = rng.choice(base)
             add("".join(rng.choice(REPS.get(ch, [ch])) for ch in s0), "variant")
+        # characters that text-processing code likes to treat specially (byte order mark, zero-width and no-break spaces,
+        # line and paragraph separators) at the start, in the middle and at the end of some of the strings
+        SPECIAL = ["\ufeff", "\u200b", "\u00a0", "\u2028", "\u2029", "\u0085", "\u000b", "\u000c"]
+        for sp in SPECIAL:
+            for s0 in ["", "SELECT 1", "a", "'q'", "? ", "\"i\" = ?", "x--y", "[b]"]:
+                add(sp + s0, "special"); add(s0 + sp, "special"); add(s0[:1] + sp + s0[1:], "special"); add(sp + sp + s0, "special")
         nrand = 2000 if tier == "quick" else 50000
         for _ in range(nrand):
             add(rand_string(rng, 200 if rng.random() < 0.1 else 24), "random")
